@@ -173,7 +173,12 @@ def guarded_generate(mod, tape, tier):
             # the same scenario is built and judged a second time in the same process (fresh objects): what the first
             # build left behind in module- or class-level state must not change the outcome
             sc["again"] = True
-        elif isinstance(sc, dict) and tape.chance(1, 10):
+        if isinstance(sc, dict) and tape.chance(1, 4):
+            # another time base: what a tick is in real time (sim/timebase.py) - minutes, seconds, microseconds, days -
+            # and a start that is not midnight; the scenario in ticks is unchanged
+            sc["timebase"] = [tape.choice([1_000_001, 16_667, 277, 24_000_000, 1, 999_999]),
+                              tape.choice([0, 45_296_789_123, 1])]
+        if isinstance(sc, dict) and not sc.get("again") and tape.chance(1, 10):
             # another scenario of the same family is built and run first in the same process (its verdict is not
             # used here): caches, counters, registries and defaults it leaves behind must not change this one's outcome
             sc["prelude"] = mod.generate(Tape(seed=10_000_019 + tape.draw(1_000_000)), tier)
@@ -190,7 +195,9 @@ def guarded_execute(mod, scenario):
     the check module; harness problems are returned under key 'harness'."""
     old = signal.signal(signal.SIGALRM, _alarm_handler)
     _arm(RUN_WALL_S)
+    from . import timebase
     try:
+        timebase.set_base(*(scenario.get("timebase") or ()))
         if scenario.get("prelude"):
             try:
                 mod.execute(copy.deepcopy(scenario["prelude"]))
@@ -212,6 +219,8 @@ def guarded_execute(mod, scenario):
             res = mod.execute(scenario)
         if scenario.get("prelude"):
             res["probes"] = dict(res.get("probes") or {}, scenarios_run_after_another=1)
+        if scenario.get("timebase"):
+            res["probes"] = dict(res.get("probes") or {}, scenarios_on_another_time_base=1)
     except WallHang:
         if getattr(mod, "HANG_IS_VIOLATION", False):
             res = {"violations": [{"oracle": "wall-hang", "kind": "hang",
@@ -227,6 +236,7 @@ def guarded_execute(mod, scenario):
         res = {"violations": [], "digest": "harness", "nontrivial": False,
                "harness": "".join(traceback.format_exception(type(e), e, e.__traceback__))[-3000:]}
     finally:
+        timebase.set_base()
         signal.alarm(0)
         signal.signal(signal.SIGALRM, old)
     res.setdefault("violations", [])
